@@ -198,9 +198,9 @@ var propsB = map[string]*propInfo{
 	"C11": {Rule: sprintf(ruleB, "at least one stored snapshot document was compared with a replay of its log prefix"),
 		Oracles: []string{"C11.snapshot-equals-prefix", "C11.userdoc-equals-prefix", "C11.version-monotone", "C11.rebuild-paths-agree (server rebuild == full replay)"}},
 	"C12": {Race: true, QuickS: 60, Rule: sprintf(ruleB, "at least two requests were released at the same simulated instant and their database commands interleaved (race-detector build of a scratch copy of the server in which cmd/instr has inserted a scheduling point before every statement that touches a synchronisation object; in 2 of 3 plans these points are seams of the simulator, probe server-scheduling-point; orda's log lines are formatted and written to io.Discard; 2-4 / 2-8 clients; pairs of overlapping REST patches, registrations (ProcessClient) at the same moment as syncs, a read-only observer, late joiners 50 ms after a lock lease ran out while the database is slow, and seeded pack order are mixed into the traffic)"),
-		Oracles: []string{"C12.log invariants (result equals some one-at-a-time order)", "C12.isolation (blocked-by-other-key; lock-timeout-behind-idle-holder: a lease runs out only behind a holder that waits for the database)", "C12.observer-sees-the-log", "C12.every-call-returns", "C12.one-client-per-id", "C12.process-crash", "C12.no-race (race detector over the explored deterministic schedules)"}},
+		Oracles: []string{"C12.log invariants (result equals some one-at-a-time order)", "C12.isolation (blocked-by-other-key; lock-timeout-behind-idle-holder: a lease runs out only behind a holder that waits for the database)", "C12.observer-sees-the-log", "C12.every-call-returns (incl. hang/<function>: orda code waiting for good on an object outside the simulated world, read from the goroutine stacks of a run that stopped)", "C12.one-client-per-id", "C12.process-crash", "C12.no-race (race detector over the explored deterministic schedules)"}},
 	"C13": {Rule: sprintf(ruleB, "a datatype was entered by subscribe or subscribe-or-create, or an entry was refused"),
-		Oracles: []string{"C13.refused-cleanly", "C13.one-datatype-per-key", "C13.first-state", "C13.subscribed-once", "C13.process-crash (e.g. a handler that was not registered is called)"}},
+		Oracles: []string{"C13.refused-cleanly", "C13.one-datatype-per-key", "C13.first-state", "C13.subscribed-once (also for entries a realtime client makes by itself)", "C13.same-key-again (a client asked again for a key it holds: same type - the object it has; other type - nothing, and the error if it gave a handler)", "C13.process-crash (e.g. a handler that was not registered is called)"}},
 	"C14": {Rule: sprintf(ruleB, "at least two clients pushed and at least one exchange both pushed and pulled (value-shape swarm)"),
 		Oracles: []string{"C14.store (operation read back from the store with the real BSON codec equals what the client sent)", "C14.peer (operation pulled by a peer equals what its issuer sent)", "C14.echo", "C14.same-effect / local-value-native (Go-native values incl. 64-bit integers beyond 2^53, pointers, structs, nil slices)", "C14.no-panic"}},
 	"C16": {Rule: sprintf(ruleB, "at least one mutated request was sent by the rogue actor"),
@@ -210,5 +210,5 @@ var propsB = map[string]*propInfo{
 	"C19": {Rule: sprintf(ruleB, "at least one REST PatchDocument was sent (absent key, existing document with and without stored snapshot, interleaved with client pushes)"),
 		Oracles: []string{"C19.rest-response-equals-target", "C19.rest-ops-appended (replay of the stored log equals the target; C06 log invariants)", "C19.subscribers-converge", "C19.rest-refuses-non-document"}},
 	"C18": {QuickS: 80, Also: propC18C, Rule: sprintf(ruleB, "at least one committing push was matched against the broker's publishes"),
-		Oracles: []string{"C18.one-publish-per-commit", "C18.no-publish-without-commit", "C18.realtime-converges (also with answers to realtime clients arriving late: holdresp)", "C18.own-notification-ignored"}},
+		Oracles: []string{"C18.one-publish-per-commit (client pushes and REST patches)", "C18.no-publish-without-commit", "C18.realtime-converges (also with answers to realtime clients arriving late: holdresp)", "C18.own-notification-ignored"}},
 }
